@@ -432,6 +432,12 @@ def _rescale(case):
 
             def get(a):
                 p = os.path.join(tmp, "t.mrc")
+                # the path held another image (other shape, other voxel size) a moment ago and was read through the same
+                # provider: what counts is the file as it is when the provider is called
+                with mrcfile.new(p, overwrite=True) as m:
+                    m.set_data(np.full((5, 7, 9), 3.0, dtype=np.float32))
+                    m.voxel_size = orig * 10 * 1.7
+                pipe.from_file(p)(scale)
                 with mrcfile.new(p, overwrite=True) as m:
                     m.set_data(a.astype(np.float32))
                     m.voxel_size = orig * 10
